@@ -2,6 +2,7 @@ SPECIFICATION Spec
 CONSTANTS
   Scheds <- SchedsChain
   Blocking = {1}
+  Panicking = {}
   MaxNow = 4
   MaxStep = 2
   MaxOps = 4
